@@ -169,8 +169,9 @@ def _body(tag, k):
 
 
 def route(ni: int, nj: int, pi: int, crlf: bool, missing: int,
-          use_none: bool, sel0: bool, sel1: bool, sel_absent: bool) -> bool:
+          use_none: bool, sel0: bool, sel1: bool, sel_absent: bool, empty: int = 0) -> bool:
     """
+    pre: 0 <= empty <= 2 and (empty == 0 or (missing == 0 and use_none and not crlf))
     pre: 0 <= ni < len(NAME_SLICE)
     pre: 0 <= nj < len(_SECOND) and (NSEC >= 2 or nj == 0)
     pre: 0 <= pi < len(PERMS)
@@ -190,10 +191,12 @@ def route(ni: int, nj: int, pi: int, crlf: bool, missing: int,
         sections.append(("Song", _body("Song", 2)))
     if has_sync:
         sections.append(("SyncTrack", _body("Sync", 1)))
+    ev_body = [] if empty == 1 else _body("Ev", 3)      # a present section may have an empty body
+    t_bodies = [([] if (empty == 2 and k == 0) else _body("T%d" % k, 2 + k)) for k in range(len(names))]
     if has_events:
-        sections.append(("Events", _body("Ev", 3)))
+        sections.append(("Events", ev_body))
     for k, nm in enumerate(names):
-        sections.append((nm, _body("T%d" % k, 2 + k)))
+        sections.append((nm, t_bodies[k]))
     perm = PERMS[pi]
     order = [p for p in perm if p < len(sections)]
     nl = "\r\n" if crlf else "\n"
@@ -232,7 +235,7 @@ def route(ni: int, nj: int, pi: int, crlf: bool, missing: int,
     by = {c[0]: c for c in rec.calls if c[0] != "track"}
     ok = ok and len(by) == 3 and by["Song"][1] == _body("Song", 2)
     ok = ok and by["SyncTrack"][1] == 480 and by["SyncTrack"][2] == _body("Sync", 1)
-    ok = ok and by["Events"][1] == _body("Ev", 3) and by["Events"][2] is rec.bpm
+    ok = ok and by["Events"][1] == ev_body and by["Events"][2] is rec.bpm
     tcalls = [c[1] for c in rec.calls if c[0] == "track"]
     expect = {}
     n_unknown = 0
@@ -252,7 +255,7 @@ def route(ni: int, nj: int, pi: int, crlf: bool, missing: int,
             return done(False)
         s = got[ins][dif]
         ok = ok and s.kind == "track" and s.instrument is ins and s.difficulty is dif
-        ok = ok and s.lines == _body("T%d" % k, 2 + k) and s.bpm is rec.bpm
+        ok = ok and s.lines == t_bodies[k] and s.bpm is rec.bpm
         ok = ok and sum(1 for c in tcalls if c is s) == 1
     for nm in names:
         if nm not in PAIR_OF:
@@ -689,15 +692,20 @@ def route_real(ni: int, pi: int, crlf: bool) -> bool:
     return done(ok)
 
 
-def select_real(mode: int, selA: bool, selB: bool, sel_absent: bool, bad: bool, pi: int) -> bool:
+_TRACK_HDR = ["  10 = N 3 0", "[ExpertSingle]", "[Song]", "  20 = E solo"]   # header-like lines inside a body
+
+
+def select_real(mode: int, selA: bool, selB: bool, sel_absent: bool, bad: bool, hdr: bool, pi: int) -> bool:
     """
     pre: 0 <= mode <= 2 and 0 <= pi < len(_REAL_PERMS)
     pre: mode == 2 or not (selA or selB or sel_absent)
+    pre: not (bad and hdr)
     post: _
     """
     A, B_ = (Instrument.GUITAR, Difficulty.EXPERT), (Instrument.DRUMS, Difficulty.HARD)
     good_secs = [_SONG, _SYNC, _EVTS, ["[ExpertSingle]", "{"] + _TRACK_A + ["}", "[HardDrums]", "{"] + _TRACK_B + ["}"]]
-    secs = [_SONG, _SYNC, _EVTS, ["[ExpertSingle]", "{"] + _TRACK_A + ["}", "[HardDrums]", "{"] + (_TRACK_BAD if bad else _TRACK_B) + ["}"]]
+    body_b = _TRACK_BAD if bad else (_TRACK_HDR if hdr else _TRACK_B)
+    secs = [_SONG, _SYNC, _EVTS, ["[ExpertSingle]", "{"] + _TRACK_A + ["}", "[HardDrums]", "{"] + body_b + ["}"]]
     want = None
     if mode == 1:
         want = []
@@ -783,3 +791,62 @@ def nps_real(form: int, a: int, b: int) -> bool:
         if s_us <= x and x <= e_us:
             count += 1
     return done(isinstance(got, H.Rate) and got.num == count and got.us == e_us - s_us)
+
+
+# ---------------------------------------------------------------------------------------------
+# C06/C13: several instrument sections, same instrument not adjacent, every order
+# ---------------------------------------------------------------------------------------------
+_MULTI = ["ExpertSingle", "ExpertDrums", "HardSingle", "EasyDrums"]
+NMULTI = H.part("VF_NMULTI", 3)
+_MPERMS = list(itertools.permutations(range(NMULTI)))
+
+
+def route_multi(pi: int, where: int, use_none: bool, s0: bool, s1: bool, s2: bool, s3: bool) -> bool:
+    """
+    pre: 0 <= pi < len(_MPERMS) and 0 <= where <= 3
+    pre: not use_none or not (s0 or s1 or s2 or s3)
+    pre: NMULTI >= 4 or not s3
+    post: _
+    """
+    names = _MULTI[:NMULTI]
+    sel = [s0, s1, s2, s3]
+    perm = H.pick(_MPERMS, pi)
+    req = [("Song", _body("Song", 1)), ("SyncTrack", _body("Sync", 1)), ("Events", _body("Ev", 1))]
+    tracks = [(names[k], _body("M%d" % k, 1 + k)) for k in perm]
+    # the required sections are placed before / between / after the instrument sections
+    if where == 0:
+        sections = req + tracks
+    elif where == 1:
+        sections = tracks + req
+    elif where == 2:
+        sections = [tracks[0]] + req + tracks[1:]
+    else:
+        sections = [req[0], tracks[0], req[1]] + tracks[1:-1] + [req[2], tracks[-1]]
+    lines = []
+    for tag, body in sections:
+        lines += ["[" + tag + "]", "{"] + body + ["}"]
+    want = None
+    if not use_none:
+        want = [PAIR_OF[names[k]] for k in range(NMULTI) if sel[k]]
+    rec = _Rec()
+    rec.install()
+    try:
+        with H.patched((C, "logger", H.CountingLogger())):
+            chart = Chart.from_file(_FakeFile("\n".join(lines) + "\n"), want_tracks=want)
+    finally:
+        rec.uninstall()
+    got = chart.instrument_tracks
+    ok = True
+    n_expected = 0
+    for k in range(NMULTI):
+        ins, dif = PAIR_OF[names[k]]
+        chosen = use_none or sel[k]
+        present = ins in got and dif in got[ins]
+        ok = ok and present == chosen
+        if chosen and present:
+            n_expected += 1
+            t = got[ins][dif]
+            ok = ok and t.instrument is ins and t.difficulty is dif and t.lines == _body("M%d" % k, 1 + k)
+    ok = ok and sum(len(v) for v in got.values()) == n_expected
+    ok = ok and len([c for c in rec.calls if c[0] == "track"]) == n_expected
+    return done(ok)
